@@ -16,7 +16,7 @@
 import FtDriver.Json
 open Lean (Json)
 namespace FtDriver
-open Ft
+open Ft Ft.Arith
 
 inductive Tok | int (i : Int) | str (s : String)
   deriving DecidableEq, Repr
